@@ -24,6 +24,10 @@ structure Opts where
   btStartIter : Nat   -- BT_START_ITER (0)
   /-- the constant `0.0001` of the sufficient-decrease test, as the double it is -/
   c1 : Rat
+  /-- code variant, read off the source by the translator: the loop variables are bound before the loops
+  (`outer_iter = 0`, `iter_bt = -1`; fix C16-newton-zero-limits).  Without it `MAXITER = 0` / `BT_MAXITER = 0` die with
+  UnboundLocalError. -/
+  zeroSafe : Bool := false
   deriving Repr, Inhabited
 
 inductive Status where
@@ -107,7 +111,7 @@ inductive Step (X : Type) where
 /-- the `if self.bt and outer_iter >= self.bt_start_iter:` branch -/
 def btPass (wd : World X D) (o : Opts) (i : Nat) (s1 : St X) (rNorm : Option Rat) (d : D) : Step X :=
   let s2 : St X := { s1 with useR := true }
-  if o.btMaxiter = 0 then .done .crash s2        -- `iter_bt` unbound
+  if o.btMaxiter = 0 && !o.zeroSafe then .done .crash s2        -- `iter_bt` unbound
   else
     let ls := lsLoop wd o s2.x d rNorm 0 o.btMaxiter 1 s2
     if ls.iterBt + 1 ≥ o.btMaxiter then .done (.ret .error .lineSearch i) ls.st
@@ -131,7 +135,7 @@ def pass (wd : World X D) (o : Opts) (i : Nat) (s : St X) : Step X :=
 
 /-- the main loop from `outer_iter = i` with `n` passes left -/
 def outer (wd : World X D) (o : Opts) : Nat → Nat → St X → Outcome × St X
-  | i, 0, s => (if o.maxiter = 0 then .crash else .ret .error .maxIter (i - 1), s)
+  | i, 0, s => (if o.maxiter = 0 && !o.zeroSafe then .crash else .ret .error .maxIter (i - 1), s)
   | i, n + 1, s =>
     match pass wd o i s with
     | .done out s' => (out, s')
@@ -152,27 +156,66 @@ inductive SolverKind where
   | unknown       -- anything else: ValueError('Solver not recognized.')
   deriving DecidableEq, Repr
 
-/-- what the scipy solvers report -/
-structure ScipyResult where
-  /-- fsolve: `ier == 1`; the others: no exception -/
-  ok : Bool
+/-- how a call of a scipy solver (and the `load_var_values_from_x` after it) ends -/
+inductive ScipyResult where
+  | ok                      -- fsolve: `ier == 1`; the others: returned
+  | notConverged            -- fsolve: `ier != 1`; the others: `scipy.optimize.NoConvergence`
+  | otherException          -- anything else (ValueError 'array must not contain infs or NaNs', shape errors, FloatingPointError ...)
+  deriving DecidableEq, Repr
+
+/-- the `except` clause around the scipy nonlinear solvers -/
+inductive Catch where
+  | all                          -- bare `except:`
+  | only (names : List String)   -- `except A:` / `except (A, B):`
+  deriving DecidableEq, Repr
+
+/-- the branch structure of `_solver_helper`, regenerated by the translator -/
+structure HelperShape where
+  /-- `if solver is NewtonSolver: sol = NewtonSolver(solver_options).solve(model)` -/
+  newtonFirst : Bool
+  /-- `elif solver is scipy.optimize.fsolve:` with `if ier != 1: error else: load; converged`, no `try` -/
+  fsolveByIer : Bool
+  /-- the scipy.optimize functions of the third branch -/
+  scipySolvers : List String
+  scipyCatch : Catch
+  /-- `else: raise ValueError('Solver not recognized.')` -/
+  elseRaises : Bool
+  deriving DecidableEq, Repr
+
+def refHelperShape : HelperShape :=
+  { newtonFirst := true, fsolveByIer := true,
+    scipySolvers := ["newton_krylov", "anderson", "broyden1", "broyden2", "excitingmixing", "linearmixing", "diagbroyden"],
+    scipyCatch := .all, elseRaises := true }
 
 /-- the triple `_solver_helper` returns (`iter_count` is None for the scipy solvers), or the exception it lets through -/
 inductive Helper where
   | ret (status : Nat) (iter : Option Nat)
   | unboundLocal
   | valueError
+  | escaped        -- an exception of the scipy solver that the `except` clause does not name
   deriving DecidableEq, Repr
 
-def helper (kind : SolverKind) (newton : Outcome) (sci : ScipyResult) : Helper :=
+def Catch.catches : Catch → ScipyResult → Bool
+  | .all, _ => true
+  | .only names, .notConverged => names.contains "NoConvergence"
+  | .only _, _ => false
+
+def helper (sh : HelperShape) (kind : SolverKind) (newton : Outcome) (sci : ScipyResult) : Helper :=
   match kind with
   | .newton =>
     match newton with
     | .ret .converged _ k => .ret 1 (some k)
     | .ret .error _ k => .ret 0 (some k)
     | .crash => .unboundLocal
-  | .fsolve => if sci.ok then .ret 1 none else .ret 0 none
-  | .scipyOther => if sci.ok then .ret 1 none else .ret 0 none
+  | .fsolve =>
+    match sci with
+    | .ok => .ret 1 none
+    | .notConverged => .ret 0 none
+    | .otherException => .escaped       -- no `try` in this branch
+  | .scipyOther =>
+    match sci with
+    | .ok => .ret 1 none
+    | r => if sh.scipyCatch.catches r then .ret 0 none else .escaped
   | .unknown => .valueError
 
 /-- `solver_status == 0` in `run_sim` -/
@@ -207,6 +250,8 @@ inductive NAct where
   | shrink        -- `alpha = alpha * self.rho`
   | plainStep     -- `x += d`
   | loadX         -- `model.load_var_values_from_x(x)`
+  | initOuterIter -- `outer_iter = 0`
+  | initIterBt    -- `iter_bt = -1`
   deriving DecidableEq, Repr
 
 inductive Range where
@@ -229,11 +274,12 @@ def nblock : List NStmt → NStmt
   | [] => .skip
   | s :: r => .seq s (nblock r)
 
-/-- the skeleton `lsLoop` / `outer` / `solve` were written from, in source order -/
-def refSolve : NStmt := nblock [
+/-- the skeleton `lsLoop` / `outer` / `solve` were written from, in source order; `zs` = the variant with the loop
+variables bound before the loops -/
+def refSolve (zs : Bool) : NStmt := nblock ([
   .act .getX,
   .ite .emptyX (.ret .converged .noVars) .skip,
-  .act (.setUseR false),
+  .act (.setUseR false)] ++ (if zs then [.act .initOuterIter] else []) ++ [
   .forRange .maxiter (nblock [
     .ite .timeUp (.ret .error .timeLimit) .skip,
     .ite .useR (.act .useStored) (.act .evalResidual),
@@ -241,16 +287,16 @@ def refSolve : NStmt := nblock [
     .act .evalJacobian,
     .tryLin (.act .linSolve) (.ret .error .singular),
     .act .alphaInit,
-    .ite .btEnabled (nblock [
-        .act (.setUseR true),
+    .ite .btEnabled (nblock ([
+        .act (.setUseR true)] ++ (if zs then [.act .initIterBt] else []) ++ [
         .forRange .btMaxiter (nblock [
           .act .trial,
           .act .loadTrial,
           .act .evalTrial,
           .ite .decrease (nblock [.act .accept, .brk]) (.act .shrink)]),
-        .ite .lsExhausted (.ret .error .lineSearch) .skip])
+        .ite .lsExhausted (.ret .error .lineSearch) .skip]))
       (nblock [.act .plainStep, .act .loadX])]),
-  .ret .error .maxIter]
+  .ret .error .maxIter])
 
 /-! ### the trace world used by the correspondence driver: points are named by the evaluation index -/
 
